@@ -1,0 +1,41 @@
+//go:build verif
+
+package mongo
+
+// Verification hook (add-only, build tag `verif`): lets an external harness run the Mongo
+// compiler without a MongoDB connection and look at what it compiled.
+
+import (
+	"github.com/bmeg/grip/gdbi"
+	"github.com/bmeg/grip/gripql"
+	"go.mongodb.org/mongo-driver/bson"
+	"go.mongodb.org/mongo-driver/mongo"
+)
+
+// VerifNewCompiler returns the Mongo compiler for a graph name; compiling needs no connection.
+func VerifNewCompiler(graph string) gdbi.Compiler {
+	return NewCompiler(&Graph{graph: graph})
+}
+
+// VerifConvertHasExpression exposes convertHasExpression.
+func VerifConvertHasExpression(stmt *gripql.HasExpression, not bool) bson.M {
+	return convertHasExpression(stmt, not)
+}
+
+// VerifCompiled describes the first processor of a compiled Mongo pipeline.
+type VerifCompiled struct {
+	StartCollection string
+	Query           mongo.Pipeline
+	DataType        gdbi.DataType
+	MarkTypes       map[string]gdbi.DataType
+}
+
+// VerifProcessor returns the compiled aggregation pipeline of a Mongo Processor
+// (ok=false when p is not one, e.g. when Compile fell back to the core engine).
+func VerifProcessor(p gdbi.Processor) (VerifCompiled, bool) {
+	mp, ok := p.(*Processor)
+	if !ok {
+		return VerifCompiled{}, false
+	}
+	return VerifCompiled{mp.startCollection, mp.query, mp.dataType, mp.markTypes}, true
+}
